@@ -166,15 +166,56 @@ def judge_numeric(what, v, raw, sel, cal, ctx=None):
     return None
 
 
-def check_select(ctx, case):
+def make_param(case):
+    from space_packet_parser.xtce import parameter_types, parameters
+    e = lib_enc(case["enc"], case["route"])
+    ptcls = parameter_types.IntegerParameterType if case["ptype"] == "int" else parameter_types.FloatParameterType
+    return parameters.Parameter("P", ptcls("T", e))
+
+
+def check_select_sequence(ctx, case):
+    """the same parameter (hence the same encoding and calibrator objects) decodes 2..5 packets one after the other;
+    every decode must select by the criteria of *its* packet, whatever matched before"""
+    try:
+        param = make_param(case)
+    except Exception as ex:
+        return ctx.fail("construct-raised", f"{case['enc']} via {case['route']}: {ex!r}", case,
+                        bucket="construct:" + exc_sig(ex))
+    sels = []
+    for i, step in enumerate(case["steps"]):
+        before = len(ctx.violations)
+        check_select(ctx, case, param, step, i)
+        if len(ctx.violations) > before:
+            return True
+        try:
+            fb = format(step["field"] % (1 << case["enc"]["bits"]), f"0{case['enc']['bits']}b")
+            sels.append(calm.ref_select(case["enc"], calm.ref_raw(case["enc"], fb),
+                                        {n: plainvals(x) for n, x in step["assign"].items()})[:2])
+        except (crit.RefError, TypeError):
+            sels.append(None)
+    if len(set(map(str, sels))) > 1:
+        ctx.cls("sequence: the selected calibrator changes between steps")
+    for a, b in zip(sels, sels[1:]):
+        if a and b and a[0] == "ctx" and b[0] == "ctx" and b[1] < a[1]:
+            ctx.cls("sequence: a later context, then an earlier one")
+    return None
+
+
+def check_select(ctx, case, param=None, step=None, stepno=None):
+    """one evaluation; with `param` given, the same parameter object is being evaluated again (part `sequence`)"""
     from space_packet_parser import exceptions
     from space_packet_parser.xtce import parameter_types, parameters
-    enc, assign, route = case["enc"], case["assign"], case["route"]
+    enc, route = case["enc"], case["route"]
+    assign = case["assign"] if step is None else step["assign"]
+    field = case["field"] if step is None else step["field"]
     ctx.count()
-    fbits = format(case["field"] % (1 << enc["bits"]), f"0{enc['bits']}b")
+    ctx.cls("part select / sequence")
+    fbits = format(field % (1 << enc["bits"]), f"0{enc['bits']}b")
     raw = calm.ref_raw(enc, fbits)
     values = {n: plainvals(s) for n, s in assign.items()}
     what = f"enc {enc} on raw {raw!r} with {assign}"
+    if stepno is not None:
+        what = f"decode {stepno + 1} of {len(case['steps'])} by one parameter object: " + what
     try:
         sel, idx, cal = calm.ref_select(enc, raw, values)
     except (crit.RefError, TypeError) as e:
@@ -193,12 +234,11 @@ def check_select(ctx, case):
         ctx.nontrivial(case)
         ctx.cls("select nontrivial")
     ctx.sample(f"select {sel}", case)
-    try:
-        e = lib_enc(enc, route)
-        ptcls = parameter_types.IntegerParameterType if case["ptype"] == "int" else parameter_types.FloatParameterType
-        param = parameters.Parameter("P", ptcls("T", e))
-    except Exception as ex:
-        return ctx.fail("construct-raised", f"{what} via {route}: {ex!r}", case, bucket="construct:" + exc_sig(ex))
+    if param is None:
+        try:
+            param = make_param(case)
+        except Exception as ex:
+            return ctx.fail("construct-raised", f"{what} via {route}: {ex!r}", case, bucket="construct:" + exc_sig(ex))
     pkt = make_packet(assign, fbits, case["offset"])
     expect_error = False
     if cal is not None:
@@ -238,6 +278,7 @@ def check_enum_bool(ctx, case):
     from space_packet_parser import packets
     from space_packet_parser.xtce import encodings, parameter_types, parameters
     ctx.count()
+    ctx.cls("part enum_bool")
     enc = case["enc"]
     kind = case["kind"]
     ctx.sample(f"{kind} over {enc['k']}", case)
@@ -252,6 +293,8 @@ def check_enum_bool(ctx, case):
         e = lib_enc(enc, case["route"])
     has_cal = enc.get("dcal") is not None or bool(enc.get("ccals"))
     falsy = not raw
+    if isinstance(raw, int) and int(float(raw)) != raw:
+        ctx.cls(f"{kind}: raw value that no double represents")
     ctx.cls(f"{kind}: " + ("calibrator attached" if has_cal else "no calibrator") + (", falsy raw" if falsy else ""))
     if has_cal or falsy:
         ctx.nontrivial(case)
@@ -271,6 +314,18 @@ def check_enum_bool(ctx, case):
     else:
         exp = bool(raw)
         pt = parameter_types.BooleanParameterType("T", e)
+    if case.get("type_route") == "xml" and enc["k"] != "str":
+        # the whole parameter type (encoding and enumeration list) from the harness's own XML
+        from vf import xdoc
+        o = dict(xdoc.DEFAULT_OPTS, ns="none")
+        model = {"kind": kind, "name": "T", "unit": None, "enc": enc, "enum": case.get("enum")}
+        try:
+            el = etree.fromstring(etree.tostring(xdoc.render_type(xdoc.Maker(o), model, o)))
+            pt = type(pt).from_xml(el)
+        except Exception as ex:
+            return ctx.fail("construct-raised", f"{what}: parameter type from XML: {ex!r}", case,
+                            bucket="construct:" + exc_sig(ex))
+        ctx.cls(f"{kind}: parameter type loaded from XML")
     pkt = packets.CCSDSPacket(raw_data=refbits.bytes_of_bits(fbits + "0" * ((-len(fbits)) % 8)))
     import warnings
     try:
@@ -315,14 +370,18 @@ def gen_calibrate(draw):
     return {"cal": cal, "route": route, "queries": qs}
 
 
+SPEC_BY_KIND = {
+    "int": st.builds(lambda v: {"k": "int", "v": v}, st.sampled_from([0, 1, 2, 3, 7, -1, 255])),
+    "float": st.builds(lambda v, r: {"k": "float", "v": v, "raw": r}, st.sampled_from([0.0, 1.0, 2.5, -1.0]),
+                       st.sampled_from([0, 1, 2, 5])),
+    "bool": st.builds(lambda v: {"k": "bool", "v": v, "raw": int(v)}, st.booleans()),
+    "enum": st.builds(lambda v, r: {"k": "enum", "v": v, "raw": r}, st.sampled_from(["ON", "OFF", ""]),
+                      st.sampled_from([0, 1, 2])),
+}
+
+
 def st_spec(name_hint=None):
-    return st.one_of(
-        st.builds(lambda v: {"k": "int", "v": v}, st.sampled_from([0, 1, 2, 3, 7, -1, 255])),
-        st.builds(lambda v, r: {"k": "float", "v": v, "raw": r}, st.sampled_from([0.0, 1.0, 2.5, -1.0]),
-                  st.sampled_from([0, 1, 2, 5])),
-        st.builds(lambda v: {"k": "bool", "v": v, "raw": int(v)}, st.booleans()),
-        st.builds(lambda v, r: {"k": "enum", "v": v, "raw": r}, st.sampled_from(["ON", "OFF", ""]),
-                  st.sampled_from([0, 1, 2])))
+    return st.one_of(*SPEC_BY_KIND.values())
 
 
 def lits_for(spec, cal_sel):
@@ -383,7 +442,7 @@ def gen_match(draw, assign, own, own_raw):
 @st.composite
 def gen_numeric_enc(draw, field=None):
     if draw(st.booleans()):
-        bits = draw(st.one_of(st.integers(1, 16), st.sampled_from([8, 16, 24, 32])))
+        bits = draw(st.one_of(st.integers(1, 16), st.sampled_from([8, 16, 24, 32]), st.sampled_from([33, 53, 54, 56, 63, 64])))
         enc = {"k": "int", "bits": bits, "sign": draw(st.sampled_from(["unsigned", "signed", "twosComplement"])),
                "order": draw(st.sampled_from([calm.BE, calm.LE])) if bits % 8 == 0 else calm.BE}
     else:
@@ -402,8 +461,10 @@ FLOAT_FIELDS = {16: [0, 0x8000, 0x3C00, 0x4000, 0xC000, 0x7C00, 0x7E00, 0x4900],
 @st.composite
 def gen_field(draw, enc):
     if enc["k"] == "int":
+        wide = [st.sampled_from([2 ** 53 + 1, 2 ** 53 + 3, 2 ** 53, 2 ** enc["bits"] - 2, 2 ** (enc["bits"] - 1) + 1,
+                                 2 ** (enc["bits"] - 1) - 1])] * 2 if enc["bits"] > 53 else []
         return draw(st.one_of(st.integers(0, min(2 ** enc["bits"] - 1, 12)), st.integers(0, 2 ** enc["bits"] - 1),
-                              st.just(2 ** enc["bits"] - 1), st.just(2 ** (enc["bits"] - 1))))
+                              st.just(2 ** enc["bits"] - 1), st.just(2 ** (enc["bits"] - 1)), *wide))
     if enc["fmt"] == "MILSTD_1750A":
         return draw(st.one_of(st.sampled_from([0, 0x40000001, 0x40000002, 0x60000002, 0xC0000001, 0x40000005]),
                               st.integers(0, 2 ** 32 - 1)))
@@ -432,6 +493,20 @@ def gen_select(draw):
 
 
 @st.composite
+def gen_select_sequence(draw):
+    case = draw(gen_select())
+    enc = case["enc"]
+    steps = [{"assign": case["assign"], "field": case["field"]}]
+    for _ in range(draw(st.integers(1, 4))):
+        assign = {n: (draw(SPEC_BY_KIND[x["k"]]) if draw(st.integers(0, 3)) else x) for n, x in case["assign"].items()}
+        field = draw(st.one_of(st.just(case["field"]), gen_field(enc)))
+        steps.append({"assign": assign, "field": field})
+    order = draw(st.permutations(range(len(steps))))
+    case["steps"] = [steps[i] for i in order]
+    return case
+
+
+@st.composite
 def gen_enum_bool(draw):
     kind = draw(st.sampled_from(["enum", "bool"]))
     which = draw(st.sampled_from(["int", "int", "float", "str"] if kind == "enum" else ["int", "float"]))
@@ -444,6 +519,10 @@ def gen_enum_bool(draw):
             enc = draw(gen_numeric_enc())
             if enc["k"] == which:
                 break
+        if which == "int" and draw(st.integers(0, 3)) == 0:
+            enc["bits"] = draw(st.sampled_from([54, 56, 63, 64]))   # values a double cannot hold
+            if enc["bits"] % 8:
+                enc["order"] = calm.BE
         field = draw(gen_field(enc))
         if draw(st.booleans()):
             enc["dcal"] = draw(calm.st_cal())
@@ -452,7 +531,8 @@ def gen_enum_bool(draw):
         enc["ccals"] = [{"match": {"form": "cmp", "cmps": [{"ref": "P", "op": ">=", "value": "0" if which == "int"
                                                            else "0.0", "cal": False}]},
                          "cal": draw(calm.st_cal())}] if draw(st.integers(0, 3)) == 0 else None
-    case = {"kind": kind, "enc": enc, "field": field, "route": draw(st.sampled_from(["ctor", "xml"]))}
+    case = {"kind": kind, "enc": enc, "field": field, "route": draw(st.sampled_from(["ctor", "xml"])),
+            "type_route": draw(st.sampled_from(["ctor", "xml"]))}
     if kind == "enum":
         if which == "str":
             raw = field.to_bytes(enc["bits"] // 8, "big")
@@ -483,14 +563,21 @@ def part_select(ctx, examples):
     hyp_run(ctx, gen_select(), check_select, examples)
 
 
+def part_sequence(ctx, examples):
+    hyp_run(ctx, gen_select_sequence(), check_select_sequence, examples, shrink_budget=300)
+
+
 def part_enum_bool(ctx, examples):
     hyp_run(ctx, gen_enum_bool(), check_enum_bool, examples)
 
 
-PARTS = {"calibrate": part_calibrate, "select": part_select, "enum_bool": part_enum_bool}
-REPLAY = {"calibrate": check_calibrate, "select": check_select, "enum_bool": check_enum_bool}
+PARTS = {"calibrate": part_calibrate, "select": part_select, "enum_bool": part_enum_bool, "sequence": part_sequence}
+REPLAY = {"calibrate": check_calibrate, "select": check_select, "enum_bool": check_enum_bool,
+          "sequence": check_select_sequence}
 KNOWN = {}
-FLOORS = {"select nontrivial": ("", 0.02), "enum/bool nontrivial": ("", 0.02)}
+FLOORS = {"sequence: a later context, then an earlier one": ("", 0.0003),
+          "select nontrivial": ("part select / sequence", 0.1), "enum/bool nontrivial": ("part enum_bool", 0.3),
+          "enum: raw value that no double represents": ("part enum_bool", 0.005)}
 
 
 def plan(tier, seed):
@@ -502,4 +589,6 @@ def plan(tier, seed):
         tasks.append(("select", {"examples": 300 if q else 6000}))
     for _ in range(3):
         tasks.append(("enum_bool", {"examples": 300 if q else 6000}))
+    for _ in range(4):
+        tasks.append(("sequence", {"examples": 200 if q else 4000}))
     return tasks
